@@ -1,6 +1,6 @@
 import I2N.Model.Transfer
 /-! Line-protocol driver for the transfer half of engine E3 (C14).  Run as a script:
-      cd lean && lake env lean --run Driver/Xfer.lean < ops.txt
+      cd lean && lake env lean --run Driver/script/Xfer.lean < ops.txt
     (the lakefile's `drv_pool` belongs to C13).  One answer line per operation line.
 
     limit <n>                         set the hashed prefix length (in content symbols)
